@@ -561,7 +561,7 @@ func loopHeaderOf(b *ssa.BasicBlock) *ssa.BasicBlock {
 }
 
 func init() {
-	reg("C16-R4", "exclusive grants need a sole holder: with two or more shared holders assumed for the row (every comparison of len(sharedLockTable[rid]) with 0/1/2 and every nil test of that slice resolved accordingly) no exclusiveLockTable update is reachable in LockExclusive / LockUpgrade", func(w *World, r *Report) {
+	reg("C16-R4", "exclusive grants need a sole holder: with two or more shared holders assumed for the row (every comparison of len(sharedLockTable[rid]) with 0/1/2 and every nil test of that slice resolved accordingly) no exclusiveLockTable update is reachable in LockExclusive / LockUpgrade; and in LockExclusive none is reachable with exactly one holder that is not the caller (len == 1, holder == caller resolved false)", func(w *World, r *Report) {
 		a := w.A()
 		xt := w.Field("storage/access", "LockManager", "exclusiveLockTable")
 		st := w.Field("storage/access", "LockManager", "sharedLockTable")
@@ -580,7 +580,8 @@ func init() {
 			return ok && bi.Name() == "len" && isSharedArr(c.Call.Args[0])
 		}
 		// truth of (len OP c) under len >= 2; ok=false when undetermined
-		evalLen := func(op token.Token, c int64, lenOnLeft bool) (bool, bool) {
+		var evalLen func(op token.Token, c int64, lenOnLeft bool) (bool, bool)
+		evalLen = func(op token.Token, c int64, lenOnLeft bool) (bool, bool) {
 			if !lenOnLeft { // c OP len  ==  len OP' c
 				switch op {
 				case token.LSS:
@@ -621,17 +622,64 @@ func init() {
 			}
 			return false, false
 		}
+		// second scenario: exactly one shared holder, and it is not the caller
+		oneForeign := false
+		evalLenAtLeast2 := evalLen
+		evalLen = func(op token.Token, c int64, lenOnLeft bool) (bool, bool) {
+			if !oneForeign {
+				return evalLenAtLeast2(op, c, lenOnLeft)
+			}
+			l, rr := int64(1), c
+			if !lenOnLeft {
+				l, rr = c, 1
+			}
+			switch op {
+			case token.EQL:
+				return l == rr, true
+			case token.NEQ:
+				return l != rr, true
+			case token.LSS:
+				return l < rr, true
+			case token.LEQ:
+				return l <= rr, true
+			case token.GTR:
+				return l > rr, true
+			case token.GEQ:
+				return l >= rr, true
+			}
+			return false, false
+		}
+		isElemOfShared := func(v ssa.Value) bool {
+			u, ok := stripConv(v).(*ssa.UnOp)
+			if !ok || u.Op != token.MUL {
+				return false
+			}
+			ia, ok := u.X.(*ssa.IndexAddr)
+			return ok && isSharedArr(ia.X)
+		}
+		isContain := w.FuncObj("storage/access", "isContainTxnID")
 		assume := func(b *ssa.BasicBlock, succ int) bool {
 			i := blockIf(b)
 			if i == nil {
 				return false
 			}
 			v, neg := condBase(i.Cond)
+			if c, ok := v.(*ssa.Call); ok && oneForeign && CalleeObj(c) == isContain && isSharedArr(c.Call.Args[0]) {
+				// the only holder is somebody else: the caller is not in the list
+				if !neg {
+					return succ == 0
+				}
+				return succ == 1
+			}
 			bo, ok := v.(*ssa.BinOp)
 			if !ok {
 				return false
 			}
 			var val, known bool
+			if oneForeign && (bo.Op == token.EQL || bo.Op == token.NEQ) && (isElemOfShared(bo.X) || isElemOfShared(bo.Y)) {
+				// holder == caller is false
+				val, known = bo.Op == token.NEQ, true
+			}
 			constInt := func(x ssa.Value) (int64, bool) {
 				cv, ok := constOf(x)
 				if !ok || cv.Kind() != constant.Int {
@@ -642,6 +690,7 @@ func init() {
 			}
 			isNil := func(x ssa.Value) bool { c, ok := x.(*ssa.Const); return ok && c.IsNil() }
 			switch {
+			case known:
 			case isLenOfShared(bo.X):
 				if c, ok := constInt(bo.Y); ok {
 					val, known = evalLen(bo.Op, c, true)
@@ -691,6 +740,13 @@ func init() {
 			}
 			wit := (&PathQ{Fn: fn, Cut: []EdgeCut{rec, okTrue, assume}, Target: isGrant}).FromEntry()
 			r.Check(wit == nil, o.Name()+":no-exclusive-grant-with-several-shared-holders", "when two or more transactions hold the row shared, no exclusive entry is created", "grant reachable although the holder-count tests say >= 2 holders: "+w.DescribeWitness(fn, wit))
+			if o == a.LockExclusive {
+				// (LockUpgrade is entered by a holder: with one holder it is the caller)
+				oneForeign = true
+				wit = (&PathQ{Fn: fn, Cut: []EdgeCut{rec, okTrue, assume}, Target: isGrant}).FromEntry()
+				oneForeign = false
+				r.Check(wit == nil, o.Name()+":no-exclusive-grant-over-one-foreign-reader", "when exactly one other transaction holds the row shared, no exclusive entry is created", "grant reachable with one shared holder that is not the caller (holder-count tests resolved for len == 1, holder == caller false): "+w.DescribeWitness(fn, wit))
+			}
 		}
 	})
 
